@@ -1,8 +1,8 @@
 PROPERTY = "C13"
 LEVEL = "proof"
-LEAN_MODULES = ["CifModel.Props.C13"]
+LEAN_MODULES = ["CifModel.Props.C13", "CifModel.Props.C13Doc"]
 REQUIRED = ["CifModel.C13_text_pure", "CifModel.C13_no_triple", "CifModel.C13_refusal_codes", "CifModel.C13_never_silently_alters",
-            "CifModel.C13_value_roundtrip"]
+            "CifModel.C13_value_roundtrip", "CifModel.C13_run", "CifModel.C13_refusal_codes_doc", "CifModel.C13_pure"]
 GEN = ["WriterConsts", "ErrCodes"]
 FAMILIES = ["decode", "writeval11", "write11"]
 TRUSTED_BASE = [
@@ -20,8 +20,8 @@ ASSUMPTIONS = [
     "the store's enumeration order is an input of the writer model",
 ]
 PARTIAL = [
-    "C13_refusal_codes_full / C13_pure_full (whole CIF): not proved; proved at the value level: C13_refusal_codes (codes and witnesses of "
-    "write_char in CIF 1.1 mode, never CIF_INTERNAL_ERROR), C13_text_pure, C13_never_silently_alters (text fields: pure, decode back exactly)",
+    "C13_pure and C13_refusal_codes_doc are proved for whole documents (every walk order) under containersV1 (loops hold packets, names "
+    "printable, numbers non-empty CIF 1.1 text); the line bound is C02_line_bound (version 1) under containersL",
     "C13 round trip of whole documents: needs the integrated parser model (group gJ); the value level is proved against the CIF 1.1 lexer "
     "model of group gD (C13_value_roundtrip)",
 ]
